@@ -38,15 +38,20 @@ transmissivity:
 """
 
 
-def planted():
+def planted(variant=None):
+    if variant == 'dropped':
+        # a fourth recession high above the others (tau -8..-6: 168..156 mm against <= 120 mm): it shares no
+        # level with them, so `spowtd recession` leaves it out of the master curve; its ET differs
+        return synth.planted_record(step_s=3600, recessions=((1, 7), (0, 8), (3, 9), (-8, 2)), et_cycle=['0.125', '0.25', '0.0625', '0.5', '1.0'])
     return synth.planted_record(step_s=3600, recessions=((1, 7), (0, 8), (3, 9)), et_cycle=['0.125', '0.25', '0.0625', '0.5'])
 
 
-def base_db():
+def base_db(variant=None):
     """symsql database after load-equivalent state + classify + zeta grid + curvature + rise + recession."""
-    if 'db' not in _CACHE:
+    key = 'db' if variant is None else 'db:' + variant
+    if key not in _CACHE:
         m = pipeline.sym_modules('R')
-        rec = planted()
+        rec = planted(variant)
         # the same grid as `spowtd load` builds from the record's files: every instant is a
         # step start, plus one closing instant
         G = len(rec['rain'])
@@ -66,8 +71,8 @@ def base_db():
                 m['recession'].find_recession_offsets(conn, None)
         finally:
             symx._ENGINE = saved
-        _CACHE['db'] = (conn.db, rec)
-    db, rec = _CACHE['db']
+        _CACHE[key] = (conn.db, rec)
+    db, rec = _CACHE[key]
     return symsql.Connection(db.clone()), rec
 
 
